@@ -649,6 +649,7 @@ package valid
 //@   loop#1 invariant vs.ok(v) && cache.inv() && iter != nil && mi.src(iter) == tv && mi.pos(iter) >= -1
 
 //@ func (*VStruct).validate
+//@   at call initValid2FieldsMap#0 assert [C02 C17 group.member] data.objName == structName && data.fieldName == fieldInfo.name && data.validName == validName && data.cusMsg == ParseValidNameKV.cusMsg(validName) && data.reflectVal == rv.field(tv, fieldNum)
 //@   at call CommonValidFn#0 assert [C18 struct.carries] arg1 == validName && arg4 == rv.field(tv, fieldNum)
 //@   at call ValidNamesSplit#0 assert [C16 effective.rule] s == ite(cusRM != nil && len(cusRM) > 0 && fieldInfo.name != "" && has(cusRM, fieldInfo.name) && cusRM[fieldInfo.name] != "", cusRM[fieldInfo.name], cacheStructType.fieldInfos[fieldNum].validNames)
 //@   at call required#0 assert [C15 C03 required.args] arg3 == ParseValidNameKV.cusMsg(validName) && arg4 == rv.field(tv, fieldNum)
@@ -704,7 +705,7 @@ package valid
 
 //@ func (*VStruct).getError
 //@   at call free#0 assert [C11 C12 geterror.free] true
-//@   at call New#0 assert [C02 geterror.text] sb.content(v.errBuf) != "" && text == ite(suffixof(ErrEndFlag, sb.content(v.errBuf)), sb.content(v.errBuf)[:len(sb.content(v.errBuf)) - len(ErrEndFlag)], sb.content(v.errBuf))
+//@   at call New#0 assert [C02 C15 geterror.text] sb.content(v.errBuf) != "" && text == ite(suffixof(ErrEndFlag, sb.content(v.errBuf)), sb.content(v.errBuf)[:len(sb.content(v.errBuf)) - len(ErrEndFlag)], sb.content(v.errBuf))
 //@   ensures [C02 geterror.nonnil] old(sb.content(v.errBuf)) != "" ==> result != nil
 //@   requires vs.ok(v)
 //@   modifies sb.content(v.errBuf), sb.nw(v.errBuf), v.ruleMap, v.vc
@@ -785,7 +786,7 @@ package valid
 
 //@ func (*VVar).getError
 //@   at call free#0 assert [C11 C12 geterror.free] true
-//@   at call New#0 assert [C02 geterror.text] sb.content(v.errBuf) != "" && text == ite(suffixof(ErrEndFlag, sb.content(v.errBuf)), sb.content(v.errBuf)[:len(sb.content(v.errBuf)) - len(ErrEndFlag)], sb.content(v.errBuf))
+//@   at call New#0 assert [C02 C15 geterror.text] sb.content(v.errBuf) != "" && text == ite(suffixof(ErrEndFlag, sb.content(v.errBuf)), sb.content(v.errBuf)[:len(sb.content(v.errBuf)) - len(ErrEndFlag)], sb.content(v.errBuf))
 //@   ensures [C02 geterror.nonnil] old(sb.content(v.errBuf)) != "" ==> result != nil
 //@   requires vv.ok(v)
 
@@ -833,7 +834,7 @@ package valid
 //@   loop#1 invariant vm.ok(v) && mapIter != nil && mi.src(mapIter) == tv && 0 <= mi.pos(mapIter) && mi.pos(mapIter) < rv.len(tv)
 
 //@ func (*VMap).getError
-//@   at call New#0 assert [C02 geterror.text] sb.content(v.errBuf) != "" && text == ite(suffixof(ErrEndFlag, sb.content(v.errBuf)), sb.content(v.errBuf)[:len(sb.content(v.errBuf)) - len(ErrEndFlag)], sb.content(v.errBuf))
+//@   at call New#0 assert [C02 C15 geterror.text] sb.content(v.errBuf) != "" && text == ite(suffixof(ErrEndFlag, sb.content(v.errBuf)), sb.content(v.errBuf)[:len(sb.content(v.errBuf)) - len(ErrEndFlag)], sb.content(v.errBuf))
 //@   ensures [C02 geterror.nonnil] old(sb.content(v.errBuf)) != "" ==> result != nil
 //@   requires vm.ok(v)
 
@@ -864,6 +865,7 @@ package valid
 //@   ensures [C16 fn.unknown] !(v.vc.validFn != nil && has(v.vc.validFn, validName)) && !has(validName2FnMap, validName) ==> result0 == nil && result1 != nil
 
 //@ func (*VUrl).validate
+//@   at call Split#0 assert [C01 C03 C17 C18 url.query] s == ite(indexof(decUrl, "?") == -1, "", decUrl[indexof(decUrl, "?")+1:]) && sep == "&"
 //@   at call ValidNamesSplit#0 reached_when [C02 C03 walk.enter] validNames != ""
 //@   at call CommonValidFn#0 reached_when [C02 C03 walk.enter] validName != "" && err == nil && fn != nil && val != ""
 //@   at call initValid2FieldsMap#0 reached_when [C02 C17 walk.enter] validName != "" && err == nil && fn == nil && (validKey == "either" || validKey == "botheq")
@@ -879,7 +881,7 @@ package valid
 //@   loop#1 invariant vu.ok(v)
 
 //@ func (*VUrl).getError
-//@   at call New#0 assert [C02 geterror.text] sb.content(v.errBuf) != "" && text == ite(suffixof(ErrEndFlag, sb.content(v.errBuf)), sb.content(v.errBuf)[:len(sb.content(v.errBuf)) - len(ErrEndFlag)], sb.content(v.errBuf))
+//@   at call New#0 assert [C02 C15 geterror.text] sb.content(v.errBuf) != "" && text == ite(suffixof(ErrEndFlag, sb.content(v.errBuf)), sb.content(v.errBuf)[:len(sb.content(v.errBuf)) - len(ErrEndFlag)], sb.content(v.errBuf))
 //@   ensures [C02 geterror.nonnil] old(sb.content(v.errBuf)) != "" ==> result != nil
 //@   requires vu.ok(v)
 
@@ -891,6 +893,7 @@ package valid
 // it holds initially (empty cache) and every entry point re-establishes it.
 
 //@ func Struct
+//@   at call SetRule#0 assert [C16 struct.unscoped] len(arg2) == 0
 //@   requires cache.inv()
 //@   ensures [C08 entry.inv] cache.inv()
 //@ func StructForFn
